@@ -319,6 +319,32 @@ pub fn check_case(c: &Case) -> Outcome {
             }
         }
         Phase::Trajectory(t, i) => {
+            if kind0 == FaultKind::EnergyRamp {
+                // judged for NUTS presets with the default threshold, when the trajectory has a further leapfrog after k
+                // (MCLMC measures the energy change per step by design)
+                if cfg.spec.preset.is_mclmc() || cfg.spec.max_energy_error != 1000.0 || !matches!(classify(&b, k0 + 1), Phase::Trajectory(t1, _) if t1 == t) {
+                    return Outcome::skip("energy ramp not applicable here");
+                }
+                o.label("energy-ramp-judged");
+                // the energy error relative to the trajectory's start is about 700 at k and about 1400 at k + 1: the
+                // trajectory has to end with a divergence there
+                let dr = &h.draws[t];
+                // (later evaluations of the same draw() call may belong to a re-run step-size search: count leapfrogs)
+                let n_steps = dr.u64("n_steps").unwrap_or(0) as usize;
+                if err_at.is_none() && n_steps > i + 2 {
+                    o.set_fail(
+                        "C05:energy-error-above-threshold-not-divergent",
+                        format!(
+                            "log-density lowered by 700 at evaluation {k0} and 1400 at {} (leapfrogs {i}, {} of draw {t}; max_energy_error 1000): the trajectory took {} leapfrogs (diverging: {})",
+                            k0 + 1,
+                            i + 1,
+                            n_steps,
+                            dr.diverging
+                        ) + &format!("; reported log-densities of the draw's evaluations: {:?}; energy_error stat {:?}, n_steps {:?}, depth {:?}", dr.evals.iter().map(|e| e.logp).collect::<Vec<_>>(), dr.f64("energy_error"), dr.u64("n_steps"), dr.u64("depth")),
+                    );
+                    return o;
+                }
+            }
             if let Some((at, m)) = &err_at {
                 o.set_fail(
                     "C05:trajectory-fault-gives-error",
@@ -375,7 +401,7 @@ impl Part for SingleFault {
     }
     fn rule(&self) -> String {
         "three NUTS presets x {Euclidean, ExactNormal} and two Euclidean-adapted MCLMC presets, dim 2..4, num_tune 20..60 + 10 draws; \
-         fault position k uniform over the fault-free evaluation count, 7 fault kinds; non-trivial = every judged case; distinct by \
+         fault position k uniform over the fault-free evaluation count, 8 fault kinds (errors, non-finite values, an energy ramp that exceeds max_energy_error only cumulatively); non-trivial = every judged case; distinct by \
          (preset, kind, phase of k)"
             .into()
     }
@@ -396,6 +422,7 @@ impl Part for SingleFault {
             ("phase:trajectory-sampling", 0.03),
             ("phase:init", 0.01),
             ("phase:search-trial", 0.002),
+            ("energy-ramp-judged", 0.01),
         ]
     }
 }
